@@ -38,7 +38,7 @@ RULE = ('cases: models a exp(-b x), c exp(-b x), a exp(-b x) + c, a cosh(b (x - 
 ASSUMPTIONS = ['the implicit-function rule is judged at the point the minimiser returned (stationarity is judged separately)',
                'stationarity in units of the parameter error: Levenberg-Marquardt 1e-6 + 2e-7 sqrt(cond chi2) (forward-difference Jacobian), '
                'ODR 1e-5 + 4 sqrt(1.5e-8 chi2) (sstol = sqrt(eps) on the sum of squares), Nelder-Mead / Powell 2e-3, migrad 5e-3',
-               'sensitivities: 1e-5 of the no-cancellation scale (autograd), 2e-4 (num_grad), plus 1e-13 cond(H)',
+               'sensitivities: 1e-5 of the no-cancellation scale (autograd), 2e-4 (num_grad), plus 1e-13 cond(H), plus twice the reference\'s own error estimate |H^-1| |dH| |S| (dH = difference of two extrapolated finite-difference Hessians with base steps h and h/2), which is normwise and therefore matters for rows of the sensitivity matrix that are small compared with the others',
                're-fit experiment: central differences at eps = 0.1, 0.05 (LM) / 0.4, 0.2 (ODR) errors, Richardson-extrapolated; tolerance (2e-4 + 3 d_LM/0.05) resp. (1e-3 + 3 d_ODR/0.2) of |S_ki| + sigma_k/error_i plus half the difference of the two estimates, d = admissible distance of a returned point from the minimum (limits what a re-fit can resolve)',
                'reference Hessians: Richardson-extrapolated central differences of complex-step gradients; problems on which the two step '
                'sizes disagree by more than 1e-4, or by more than 10 / cond(H), are discarded',
@@ -75,8 +75,36 @@ def rat_ptrue(rng):
     return [a, a * c * f, c]
 
 
+def install_judgement_counters(ctx):
+    """Checklist item 13: the evidence shows how often every judgement ran (counter 'judged:<family>:<field>'; the family is the
+    mechanism tag without the presentation / step / variant it was reached through)."""
+    import re
+
+    def family(mech):
+        m = re.sub(r'@[a-z-]+', '', mech)
+        m = re.sub(r'^(history):\d+', r'\1', m)
+        m = re.sub(r'^(alias|representation|options|boundary|metamorphic):[A-Za-z0-9=.\-]+(?=:|$)', r'\1', m)
+        m = re.sub(r'^scale:(unit|scaled|small-parameters:[A-Za-z-]+|large-parameters:[A-Za-z_-]+)', 'scale', m)
+        return m
+    c_close, c_equal, c_require = ctx.close, ctx.equal, ctx.require
+
+    def close(got, exp, mechanism, *args, **kw):
+        ctx.count('judged:' + family(mechanism))
+        return c_close(got, exp, mechanism, *args, **kw)
+
+    def equal(got, exp, mechanism, *args, **kw):
+        ctx.count('judged:' + family(mechanism))
+        return c_equal(got, exp, mechanism, *args, **kw)
+
+    def require(cond, mechanism, detail=None):
+        ctx.count('judged:' + family(mechanism))
+        return c_require(cond, mechanism, detail)
+    ctx.close, ctx.equal, ctx.require = close, equal, require
+
+
 def setup(ctx):
     global PE, ANP
+    install_judgement_counters(ctx)
     import pyerrors as pe
     import autograd.numpy as anp
     PE, ANP = pe, anp
@@ -349,10 +377,13 @@ def compare_param(ctx, got, ref, mech, fl_tol, cov_tol, what):
     return bool(ok)
 
 
-def judge_observables(ctx, params, ins, errs, Srows, sigma, rt, mech, what):
-    """View (ii), whole observables: expected = dense propagation with the reference sensitivities."""
+def judge_observables(ctx, params, ins, errs, Srows, sigma, rt, mech, what, Serr=None):
+    """View (ii), whole observables: expected = dense propagation with the reference sensitivities.  Serr (same shape as Srows) is the
+    reference's own error estimate of its sensitivities (ref.implicit.sensitivity_error); twice that is admitted on top of rt."""
     nontriv = False
+    dmax = [max([float(np.max(np.abs(d))) for (_, d, _) in s_['chains'].values() if len(d)] or [0.0]) for s_ in ins]
     for k, p in enumerate(params):
+        extra = 0.0 if Serr is None else 2.0 * float(np.sum(np.asarray(Serr)[k] * np.asarray(dmax)))
         grads = list(Srows[k])
         ref = dense.propagate(ins, grads, lambda v: 0.0)
         scale = dense.delta_scale(ins, grads)
@@ -368,17 +399,20 @@ def judge_observables(ctx, params, ins, errs, Srows, sigma, rt, mech, what):
                     sg = sg + abs(g_) * np.abs(s_['cov'][n][1])
                     cvs = s_['cov'][n][0]
             sd = np.sqrt(np.abs(np.diag(np.atleast_2d(cvs))))
-            cov_tol[n] = rt * float(np.max(sg + bud / sd))
-        compare_param(ctx, p, ref, mech, rt * max(scale, floor) + 1e-300, cov_tol, '%s p[%d]' % (what, k))
+            ce = 0.0 if Serr is None else 2.0 * float(sum(np.asarray(Serr)[k][j_] * float(np.max(np.abs(s_['cov'][n][1]))) for j_, s_ in enumerate(ins) if n in s_['cov']))
+            cov_tol[n] = rt * float(np.max(sg + bud / sd)) + ce
+        compare_param(ctx, p, ref, mech, rt * max(scale, floor) + extra + 1e-300, cov_tol, '%s p[%d]' % (what, k))
         if any(np.any(v[1] != 0) for v in ref['chains'].values()):
             nontriv = True
     return nontriv
 
 
-def judge_matrix(ctx, Sext, Sref, sigma, errs, rt, mech, what):
+def judge_matrix(ctx, Sext, Sref, sigma, errs, rt, mech, what, Serr=None):
     """Entry (k, i) against rt * (|S_ki| + sigma_k / error_i): sigma_k / error_i is the size the entry would have if
     datum i alone produced the error of parameter k."""
     tol = rt * (np.abs(Sref) + np.outer(sigma, 1.0 / np.asarray(errs)))
+    if Serr is not None:
+        tol = tol + 2.0 * np.asarray(Serr)
     bad = np.abs(Sext - Sref) > tol
     ctx.ev(Sref.size)
     note(mech, np.abs(Sext - Sref) / tol, ctx.case)
@@ -616,12 +650,12 @@ def run_ls(ctx, idx, rng):
     ins = snaps + psnaps
     errs = list(dy) + list(perr)
     Sref = np.hstack([a['Sy'], a['Sp']])
-    nontriv = judge_observables(ctx, res.fit_parameters, ins, errs, Sref, a['sigma'], rt, 'ls:implicit-function', what)
+    nontriv = judge_observables(ctx, res.fit_parameters, ins, errs, Sref, a['sigma'], rt, 'ls:implicit-function', what, Serr=a['S_err'])
     inputs = list(ys) + [got_pr[m] if isinstance(got_pr, dict) else got_pr[j] for j, (m, kind, v) in enumerate(spec)]
     Sext, rel = extract_sensitivities(ctx, res.fit_parameters, inputs, 'ls:extraction')
     if Sext is not None:
         ctx.require(rel < 1e-8, 'ls:fluctuations-outside-span-of-data', {'what': what, 'relative_residual': rel})
-        judge_matrix(ctx, Sext, Sref, a['sigma'], errs, rt, 'ls:implicit-function:sensitivity-matrix', what)
+        judge_matrix(ctx, Sext, Sref, a['sigma'], errs, rt, 'ls:implicit-function:sensitivity-matrix', what, Serr=a['S_err'])
         ctx.count('sensitivity_matrices_extracted')
     ctx.count('sensitivities_judged')
     if nontriv and k >= 2:
@@ -771,11 +805,11 @@ def run_tls(ctx, idx, rng):
     errs = list(np.asarray(dx).ravel()) + list(dy)
     Sref = np.hstack([a['Sx'][:k], a['Sy'][:k]])
     sig = a['sigma'][:k]
-    nontriv = judge_observables(ctx, res.fit_parameters, ins, errs, Sref, sig, rt, 'tls:implicit-function', what)
+    nontriv = judge_observables(ctx, res.fit_parameters, ins, errs, Sref, sig, rt, 'tls:implicit-function', what, Serr=a['S_err'][:k])
     Sext, rel = extract_sensitivities(ctx, res.fit_parameters, inputs, 'tls:extraction')
     if Sext is not None:
         ctx.require(rel < 1e-8, 'tls:fluctuations-outside-span-of-data', {'what': what, 'relative_residual': rel})
-        judge_matrix(ctx, Sext, Sref, sig, errs, rt, 'tls:implicit-function:sensitivity-matrix', what)
+        judge_matrix(ctx, Sext, Sref, sig, errs, rt, 'tls:implicit-function:sensitivity-matrix', what, Serr=a['S_err'][:k])
         ctx.count('sensitivity_matrices_extracted')
     ctx.count('sensitivities_judged')
     if nontriv and k >= 2:
@@ -1005,7 +1039,7 @@ def hard_ls(ctx, P, mech, what, perturb=False, cond_ref=None):
     ins = snaps + [snap(v) for _, _, v in spec]
     errs = list(dy) + perr
     Sref = np.hstack([a['Sy'], a['Sp']])
-    nontriv = judge_observables(ctx, res.fit_parameters, ins, errs, Sref, a['sigma'], rt, mech + ':implicit-function', what)
+    nontriv = judge_observables(ctx, res.fit_parameters, ins, errs, Sref, a['sigma'], rt, mech + ':implicit-function', what, Serr=a['S_err'])
     ctx.count('sensitivities_judged')
     return dict(res=res, a=a, pv=pv, Sref=Sref, nontriv=nontriv, rt=rt)
 
@@ -1094,7 +1128,7 @@ def hard_tls(ctx, P, mech, what, perturb=False, cond_ref=None):
     ins = [snap(o_) for o_ in xflat + list(P['ys'])]
     errs = list(np.asarray(dx).ravel()) + list(dy)
     Sref = np.hstack([a['Sx'][:k], a['Sy'][:k]])
-    nontriv = judge_observables(ctx, res.fit_parameters, ins, errs, Sref, a['sigma'][:k], rt, mech + ':implicit-function', what)
+    nontriv = judge_observables(ctx, res.fit_parameters, ins, errs, Sref, a['sigma'][:k], rt, mech + ':implicit-function', what, Serr=a['S_err'][:k])
     ctx.count('sensitivities_judged')
     return dict(res=res, a=a, pv=beta, Sref=Sref, nontriv=nontriv, rt=rt)
 
